@@ -234,6 +234,120 @@ int main()
       if (ok) { same(("calcul_primal_vs_kriging" + cfg).c_str(), base.est, ce, base.sd, cs, zs, st); same(("calcul_dual_vs_kriging" + cfg).c_str(), base.est, de, {}, {}, zs, st); }
       else st.hit("calcul_refused");
     }
+    // ---- (h) the other forms of the algebraic calculator against the standard kriging function
+    {
+      MatrixSquareSymmetric Sigma = model->evalCovMatrixSymmetric(dbin);
+      MatrixRectangular Xd = model->evalDriftMatrix(dbin);
+      MatrixSquareSymmetric S00(nvar); for (int a = 0; a < nvar; a++) for (int b = 0; b < nvar; b++) S00.setValue(a, b, model->eval0(a, b));
+      VectorDouble Zc = dbin->getMultipleValuesActive(VectorInt(), VectorInt(), means);
+      const MatrixRectangular* px = order >= 0 ? &Xd : nullptr;
+      std::string cfg = "_order" + std::to_string(order) + "_nvar" + std::to_string(nvar);
+      // (h1) cross-validation form: the variables of one sample are removed (all of them, or one of two) and
+      //      estimated from the rest; reference = kriging() at that location with those values set undefined
+      {
+        int i0 = (int)rng.range(0, nech - 1);
+        VectorInt vx; if (nvar == 1 || rng.coin(0.5)) for (int a = 0; a < nvar; a++) vx.push_back(a); else vx.push_back((int)rng.range(0, nvar - 1));
+        const VectorVectorInt index = dbin->getMultipleRanksActive();
+        VectorInt eqs = Db::getMultipleSelectedIndices(index, vx, {i0});
+        VectorInt vars = Db::getMultipleSelectedVariables(index, vx, {i0});
+        Db* dataP = dbin->clone(); for (int a : vx) dataP->setLocVariable(ELoc::Z, i0, a, TEST);
+        Db* dt = makeDb({X[i0]}, ndim, {}, {}, {}, {});
+        Run ref = runKrig(dataP, dt, model, neighU, nvar);
+        MatrixRectangular Sigma0 = model->evalCovMatrix(dbin, dt); MatrixRectangular Xd0 = model->evalDriftMatrix(dt);
+        const MatrixRectangular* px0 = order >= 0 ? &Xd0 : nullptr;
+        KrigingCalcul K(false);
+        bool ok = ref.ok && !(K.setData(&Zc, &means) || K.setLHS(&Sigma, px) || K.setRHS(&Sigma0, px0) || K.setVar(&S00) || K.setXvalidUnique(&eqs, &vars));
+        if (ok)
+        {
+          VectorDouble e = K.getEstimation(), sd = K.getStdv();
+          if ((int)e.size() == (int)vx.size() && (int)sd.size() == (int)vx.size())
+          {
+            std::vector<double> e1, s1, e2, s2; for (size_t k = 0; k < vx.size(); k++) { e1.push_back(ref.est[vx[k]]); s1.push_back(ref.sd[vx[k]]); e2.push_back(e[k]); s2.push_back(sd[k]); }
+            same(("calcul_xvalid_vs_kriging" + cfg + (vx.size() == (size_t)nvar ? "_allvars" : "_onevar")).c_str(), e1, e2, s1, s2, zs, st);
+          }
+          else st.hit("calcul_xvalid_shape");
+        }
+        else st.hit("calcul_xvalid_refused");
+        delete dataP; delete dt;
+      }
+      // (h2) collocated form (two variables, the second one known at the target): reference = kriging() with the
+      //      collocated datum added to the data as a heterotopic sample
+      if (nvar == 2)
+      {
+        int t = 0; double zp = rng.dyadic(-8, 8, 3);
+        Db* dataP = dbin->clone(); int ie = dataP->addSamples(1);
+        dataP->setSampleCoordinates(ie, VectorDouble(X0[t].begin(), X0[t].end()));
+        VectorDouble vt(nvar, TEST); vt[1] = zp; dataP->setLocVariables(ELoc::Z, ie, vt);
+        Db* dt = makeDb({X0[t]}, ndim, {}, {}, {}, {});
+        Run ref = runKrig(dataP, dt, model, neighU, nvar);
+        MatrixRectangular Sigma0 = model->evalCovMatrix(dbin, dt); MatrixRectangular Xd0 = model->evalDriftMatrix(dt);
+        const MatrixRectangular* px0 = order >= 0 ? &Xd0 : nullptr;
+        VectorDouble zc(nvar, TEST); zc[1] = zp - means[1]; VectorInt rk = {1};
+        KrigingCalcul K(false);
+        bool ok = ref.ok && !(K.setData(&Zc, &means) || K.setLHS(&Sigma, px) || K.setRHS(&Sigma0, px0) || K.setVar(&S00) || K.setColCokUnique(&zc, &rk));
+        if (ok)
+        {
+          VectorDouble e = K.getEstimation(), sd = K.getStdv();
+          // only the first variable: the second one is a datum at the target (exact interpolation: 0/0 forms in both paths)
+          if ((int)e.size() == nvar && (int)sd.size() == nvar) same(("calcul_collocated_vs_kriging" + cfg).c_str(), {ref.est[0]}, {e[0]}, {ref.sd[0]}, {sd[0]}, zs, st);
+          else st.hit("calcul_collocated_shape");
+        }
+        else st.hit("calcul_collocated_refused");
+        delete dataP; delete dt;
+      }
+      // (h3) Bayesian form (drift coefficients with a Gaussian prior): reference = kribayes()
+      if (order >= 0)
+      {
+        int nbfl = Xd.getNCols();
+        VectorDouble pm(nbfl); for (auto& v : pm) v = rng.dyadic(-2, 2, 2);
+        MatrixSquareSymmetric pc(nbfl);
+        { // L Lt + I/4 with small dyadic L
+          std::vector<std::vector<double>> L(nbfl, std::vector<double>(nbfl, 0.));
+          for (int i = 0; i < nbfl; i++) for (int j = 0; j <= i; j++) L[i][j] = 0.25 * (double)rng.range(-2, 2);
+          for (int i = 0; i < nbfl; i++) for (int j = 0; j <= i; j++) { double v = (i == j) ? 0.25 : 0.; for (int k = 0; k < nbfl; k++) v += L[i][k] * L[j][k]; pc.setValue(i, j, v); }
+        }
+        // all the targets in one call of the reference (the data-dependent part is computed once for the run)
+        int n0 = dbout->getColumnNumber();
+        bool okr = kribayes(dbin, dbout, model, neighU, pm, pc, true, true) == 0;
+        Run ref; if (okr) ref = collect(dbout, n0, nvar);
+        std::vector<double> ce, cs; bool ok = okr && ref.ok;
+        for (int t = 0; t < ntarget && ok; t++)
+        {
+          Db* dt = makeDb({X0[t]}, ndim, {}, {}, {}, {});
+          MatrixRectangular Sigma0 = model->evalCovMatrix(dbin, dt); MatrixRectangular Xd0 = model->evalDriftMatrix(dt);
+          KrigingCalcul K(false);
+          if (K.setData(&Zc, &means) || K.setLHS(&Sigma, &Xd) || K.setRHS(&Sigma0, &Xd0) || K.setVar(&S00) || K.setBayes(&pm, &pc)) ok = false;
+          else { VectorDouble e = K.getEstimation(), sd = K.getStdv(); if ((int)e.size() != nvar || (int)sd.size() != nvar) ok = false; else for (int a = 0; a < nvar; a++) { ce.push_back(e[a]); cs.push_back(sd[a]); } }
+          delete dt;
+        }
+        if (ok) same(("calcul_bayes_vs_kribayes" + cfg).c_str(), ref.est, ce, ref.sd, cs, zs, st);
+        else st.hit("calcul_bayes_refused");
+        // second reference (independent of kribayes): a Gaussian prior on the drift coefficients is simple kriging of the
+        // residuals Z - X m with the covariance Sigma + X S X' (and Sigma0 + X S X0', Sigma00 + X0 S X0'), mean X0 m at the target
+        if (ok)
+        {
+          int n = Sigma.getNRows();
+          auto xsx = [&](const MatrixRectangular& A, int i, const MatrixRectangular& B, int j) { double v = 0.; for (int a = 0; a < nbfl; a++) for (int b = 0; b < nbfl; b++) v += A.getValue(i, a) * pc.getValue(a, b) * B.getValue(j, b); return v; };
+          MatrixSquareSymmetric SigB(n); for (int i = 0; i < n; i++) for (int j = 0; j <= i; j++) SigB.setValue(i, j, Sigma.getValue(i, j) + xsx(Xd, i, Xd, j));
+          VectorDouble Zr(n); for (int i = 0; i < n; i++) { double m = 0.; for (int a = 0; a < nbfl; a++) m += Xd.getValue(i, a) * pm[a]; Zr[i] = Zc[i] - m; }
+          std::vector<double> ee, es; bool ok2 = true;
+          for (int t = 0; t < ntarget && ok2; t++)
+          {
+            Db* dt = makeDb({X0[t]}, ndim, {}, {}, {}, {});
+            MatrixRectangular Sigma0 = model->evalCovMatrix(dbin, dt); MatrixRectangular Xd0 = model->evalDriftMatrix(dt);
+            MatrixRectangular S0B(n, nvar); for (int i = 0; i < n; i++) for (int a = 0; a < nvar; a++) S0B.setValue(i, a, Sigma0.getValue(i, a) + xsx(Xd, i, Xd0, a));
+            MatrixSquareSymmetric S00B(nvar); for (int a = 0; a < nvar; a++) for (int b = 0; b <= a; b++) S00B.setValue(a, b, S00.getValue(a, b) + xsx(Xd0, a, Xd0, b));
+            VectorDouble m0(nvar, 0.); for (int a = 0; a < nvar; a++) for (int k = 0; k < nbfl; k++) m0[a] += Xd0.getValue(a, k) * pm[k];
+            KrigingCalcul K(false);
+            if (K.setData(&Zr, &m0) || K.setLHS(&SigB, nullptr) || K.setRHS(&S0B, nullptr) || K.setVar(&S00B)) ok2 = false;
+            else { VectorDouble e = K.getEstimation(), sd = K.getStdv(); if ((int)e.size() != nvar || (int)sd.size() != nvar) ok2 = false; else for (int a = 0; a < nvar; a++) { ee.push_back(e[a]); es.push_back(sd[a]); } }
+            delete dt;
+          }
+          if (ok2) same(("calcul_bayes_vs_explicit_prior" + cfg).c_str(), ee, ce, es, cs, zs, st);
+          else st.hit("calcul_bayes_explicit_refused");
+        }
+      }
+    }
     delete neighU; delete model; delete dbin; delete dbout;
   }
   st.dump(stdout);
